@@ -1,6 +1,8 @@
 package eval
 
 import (
+	"maps"
+	"slices"
 	"strconv"
 
 	"github.com/simimpact/srsim/pkg/engine/target/evaltarget"
@@ -148,7 +150,8 @@ func (m *mapval) Inspect() string {
 
 		str += v.Inspect()
 	}
-	for k, v := range m.fields {
+	for _, k := range slices.Sorted(maps.Keys(m.fields)) { // fields in the order of their names
+		v := m.fields[k]
 		if done {
 			str += ", "
 		}
